@@ -3,12 +3,15 @@ package session
 // Race-detector scenario for C20 (native only; built with -race by the C20 check).
 
 import (
+	"context"
+	"net"
 	"os"
 	"sync"
 	"sync/atomic"
 	"testing"
 	"time"
 
+	simplefixgo "github.com/b2broker/simplefix-go"
 	"github.com/b2broker/simplefix-go/storages/memory"
 	fixgen "github.com/b2broker/simplefix-go/tests/fix44"
 	"github.com/b2broker/simplefix-go/utils"
@@ -274,5 +277,129 @@ func TestVerifRaceEvents(t *testing.T) {
 	f.s.OnChangeState(utils.EventDisconnect, func() bool { return true })
 	time.Sleep(700 * time.Millisecond)
 	close(done)
+	wg.Wait()
+}
+
+// TestVerifRaceConn: the whole stack over a loopback socket - Acceptor.ListenAndServe with a
+// session per connection, Initiator.Serve with its session, 1-second timers, application senders
+// on both sides, resend requests in both directions, state queries, then Close on both sides
+// while senders are still running.
+func TestVerifRaceConn(t *testing.T) {
+	ln, err := net.Listen("tcp", "localhost:0")
+	if err != nil {
+		t.Skip("no loopback listener: " + err.Error())
+	}
+	var mu sync.Mutex
+	var accSessions []*Session
+	st := memory.NewStorage()
+	acc := simplefixgo.NewAcceptor(ln, simplefixgo.NewAcceptorHandlerFactory("35", 4), 5*time.Second, func(h simplefixgo.AcceptorHandler) {
+		s, err := NewAcceptorSession(verifOpts("0"), h,
+			&LogonSettings{LogonTimeout: 5 * time.Second, CloseTimeout: 50 * time.Millisecond, HeartBtLimits: &IntLimits{Min: 1, Max: 60}},
+			func(*LogonSettings) error { return nil }, st, st)
+		if err != nil {
+			panic(err)
+		}
+		if err := s.Run(); err != nil {
+			panic(err)
+		}
+		mu.Lock()
+		accSessions = append(accSessions, s)
+		mu.Unlock()
+	})
+	accDone := make(chan struct{})
+	go func() { defer close(accDone); _ = acc.ListenAndServe() }()
+
+	c, err := net.Dial("tcp", ln.Addr().String())
+	if err != nil {
+		t.Fatal(err)
+	}
+	ih := simplefixgo.NewInitiatorHandler(context.Background(), "35", 4)
+	ini := simplefixgo.NewInitiator(c, ih, 4, 5*time.Second)
+	ist := memory.NewStorage()
+	is, err := NewInitiatorSession(ih, verifOpts("0"),
+		&LogonSettings{TargetCompID: "SRV", SenderCompID: "CLI", HeartBtInt: 1, EncryptMethod: "0", Username: "u", Password: "p",
+			LogonTimeout: 5 * time.Second, CloseTimeout: 50 * time.Millisecond}, ist, ist)
+	if err != nil {
+		t.Fatal(err)
+	}
+	if err := is.Run(); err != nil {
+		t.Fatal(err)
+	}
+	iniDone := make(chan struct{})
+	go func() { defer close(iniDone); _ = ini.Serve() }()
+	accSess := func() *Session {
+		mu.Lock()
+		defer mu.Unlock()
+		if len(accSessions) == 0 {
+			return nil
+		}
+		return accSessions[0]
+	}
+	deadline := time.Now().Add(10 * time.Second)
+	for !(is.IsLogged() && accSess() != nil && accSess().IsLogged()) {
+		if time.Now().After(deadline) {
+			t.Fatal("fixture: the two sessions did not log on")
+		}
+		time.Sleep(5 * time.Millisecond)
+	}
+	as := accSess()
+	var stop int32
+	var wg sync.WaitGroup
+	for _, s := range []*Session{is, as} {
+		s := s
+		for i := 0; i < 3; i++ {
+			wg.Add(1)
+			go func() {
+				defer wg.Done()
+				for atomic.LoadInt32(&stop) == 0 {
+					_ = s.Send(fixgen.CreateTestRequest("x"))
+					_ = s.IsLogged()
+					time.Sleep(2 * time.Millisecond)
+				}
+			}()
+		}
+		wg.Add(1)
+		go func() {
+			defer wg.Done()
+			for i := 0; i < 5 && atomic.LoadInt32(&stop) == 0; i++ {
+				_ = s.Send(fixgen.CreateResendRequest(1, 0))
+				s.OnChangeState(utils.EventRequest, func() bool { return true })
+				time.Sleep(100 * time.Millisecond)
+			}
+		}()
+	}
+	time.Sleep(700 * time.Millisecond)
+	atomic.StoreInt32(&stop, 1)
+	wg.Wait()
+	// silence: both heartbeat timers expire for real
+	time.Sleep(1300 * time.Millisecond)
+	_ = is.Send(fixgen.CreateResendRequest(1, 0))
+	time.Sleep(1200 * time.Millisecond)
+	// teardown with senders still running
+	atomic.StoreInt32(&stop, 0)
+	for _, s := range []*Session{is, as} {
+		s := s
+		wg.Add(1)
+		go func() {
+			defer wg.Done()
+			for i := 0; i < 200 && atomic.LoadInt32(&stop) == 0; i++ {
+				_ = s.Send(fixgen.CreateHeartbeat())
+				time.Sleep(time.Millisecond)
+			}
+		}()
+	}
+	time.Sleep(50 * time.Millisecond)
+	ini.Close()
+	time.Sleep(100 * time.Millisecond)
+	acc.Close()
+	atomic.StoreInt32(&stop, 1)
+	select {
+	case <-iniDone:
+	case <-time.After(5 * time.Second):
+	}
+	select {
+	case <-accDone:
+	case <-time.After(5 * time.Second):
+	}
 	wg.Wait()
 }
